@@ -88,12 +88,19 @@ def run(prop, tier):
     c.deadline = 170 if tier == "quick" else 1500
     c.assumptions = ["oracles (Floyd-Warshall, union-find, all-simple-cycles reference) are independent of parmcb and exact on integer/dyadic weights"]
     binary = _build()
+    cfgbin = {"@log": vlib.build("components_cfg_log", "components.cpp", cfg=vlib.gen_config(logging=True)),
+              "@noinv": vlib.build("components_cfg_noinv", "components.cpp", cfg=vlib.gen_config(invariants=False))}
     c.builds_done()
-    plan = sp["quick"] + (sp["thorough"] if tier == "thorough" else [])
+    weighted = sp["comp"] in ("sptree", "collections")
+    plan = sp["quick"] + [("other build configurations of the library (PARMCB_LOGGING on, PARMCB_INVARIANTS_CHECK off): G(4), G(5)",
+                           [[t, "--n", n] + (["--alpha", "A2"] if weighted else []) for t in ("@log", "@noinv") for n in (4, 5)])] + (sp["thorough"] if tier == "thorough" else [])
     for bound, arglists in plan:
         for args in arglists:
-            r = vlib.run_harness(binary, ["--comp", sp["comp"]] + list(args) + ["--seed", vlib.seed(), "--deadline-s", int(c.remaining())])
-            c.add_run(r, bound + " :: " + r["args"], None, replay={"harness": "components"})
+            tag = args[0] if args and str(args[0]).startswith("@") else None
+            if tag:
+                args = args[1:]
+            r = vlib.run_harness(cfgbin[tag] if tag else binary, ["--comp", sp["comp"]] + list(args) + ["--seed", vlib.seed(), "--deadline-s", int(c.remaining())])
+            c.add_run(r, bound + ((" [%s]" % tag[1:]) if tag else "") + " :: " + r["args"], None, replay={"harness": "components"})
     return c.finish()
 
 
